@@ -17,6 +17,14 @@
 //!          never cached by the harness) and create its own Environment, op 1 = use configuration idx (built on first use)
 //!          on the probe: pk 0 = segments (payload as in mode 0, unparsed with the delimiters of that configuration),
 //!          pk 1 = <str> source as is.  Output: 4 nuse (len out...){nuse}, `out` being the mode 0 / mode 1 output of that use.
+//!   mode 3 (setter order): 3 0 D1..D8 nops (id val){nops} nseg seg*
+//!          a fresh Environment; the setters are applied in the given order, then the segments (unparsed with D1..D8 if the
+//!          LAST set_syntax had val 1, with the default delimiters otherwise) are rendered through render_str and through
+//!          add_template_owned + get_template.  Setter ids: 0 set_syntax (val 1 = D1..D8, 0 = default), 1 set_trim_blocks,
+//!          2 set_lstrip_blocks, 3 set_keep_trailing_newline, 4 set_auto_escape_callback, 5 set_undefined_behavior, 6 set_formatter,
+//!          7 set_debug, 8 set_fuel, 9 set_recursion_limit, 10 set_loader, 11 set_path_join_callback, 12 add_filter,
+//!          13 add_function, 14 add_test, 15 add_global, 16 set_unknown_method_callback, 17 add_template_owned (another template),
+//!          18 clear_templates, 19 remove_filter/remove_global.  Output: 5 R R   (both renderings, R as in mode 0)
 //! Output: [2] on panic, [1 22] when the delimiter configuration is rejected, otherwise
 //!   mode 0:  R T      mode 1:  3 T
 //!   R = 0 <str rendered> | 1 errcode
@@ -24,7 +32,7 @@
 //!       end = 0 | 1 errcode
 use minijinja::machinery::{tokenize, Token, WhitespaceConfig};
 use minijinja::syntax::SyntaxConfig;
-use minijinja::Environment;
+use minijinja::{AutoEscape, Environment, UndefinedBehavior, Value};
 use mjverif::*;
 use std::collections::HashMap;
 
@@ -238,6 +246,79 @@ fn history(c: &mut Cur, bits: i64) -> Vec<String> {
     out
 }
 
+fn render_part(out: &mut Vec<String>, r: Result<String, minijinja::Error>) {
+    match r {
+        Ok(s) => {
+            out.push("0".into());
+            push_str(out, &s);
+        }
+        Err(e) => {
+            out.push("1".into());
+            out.push(err_code(e.kind()).to_string());
+        }
+    }
+}
+
+/// mode 3: the Environment setters in a given order
+fn setter_order(c: &mut Cur, d: &[String]) -> Vec<String> {
+    let nops = c.usize();
+    let ops: Vec<(i64, i64)> = (0..nops).map(|_| (c.i64(), c.i64())).collect();
+    let custom = match build_syntax(d) {
+        Ok(s) => s,
+        Err(code) => return vec!["1".into(), code.to_string()],
+    };
+    let mut env = Environment::new();
+    let mut last_syntax = 0;
+    for (id, val) in ops {
+        match id {
+            0 => {
+                env.set_syntax(if val == 1 { custom.clone() } else { SyntaxConfig::default() });
+                last_syntax = val;
+            }
+            1 => env.set_trim_blocks(val == 1),
+            2 => env.set_lstrip_blocks(val == 1),
+            3 => env.set_keep_trailing_newline(val == 1),
+            4 => {
+                if val == 1 {
+                    env.set_auto_escape_callback(|_| AutoEscape::None)
+                } else {
+                    env.set_auto_escape_callback(minijinja::default_auto_escape_callback)
+                }
+            }
+            5 => env.set_undefined_behavior(if val == 1 { UndefinedBehavior::Chainable } else { UndefinedBehavior::Lenient }),
+            6 => env.set_formatter(minijinja::escape_formatter),
+            7 => env.set_debug(val == 1),
+            8 => env.set_fuel(Some(100_000 + val as u64)),
+            9 => env.set_recursion_limit(400 + val as usize),
+            10 => env.set_loader(|_| Ok(None)),
+            11 => env.set_path_join_callback(|name, _| name.to_string().into()),
+            12 => env.add_filter("c10f", |v: Value| v),
+            13 => env.add_function("c10g", || 1),
+            14 => env.add_test("c10t", |_v: Value| true),
+            15 => env.add_global("c10k", 1),
+            16 => env.set_unknown_method_callback(|_, _, _, _| Ok(Value::from(0))),
+            17 => {
+                let _ = env.add_template_owned("c10-other", "other");
+            }
+            18 => env.clear_templates(),
+            _ => {
+                env.remove_filter("c10f");
+                env.remove_global("c10k");
+            }
+        }
+    }
+    let default_d: Vec<String> = ["{%", "%}", "{{", "}}", "{#", "#}", "", ""].iter().map(|x| x.to_string()).collect();
+    let src = build_source(c, if last_syntax == 1 { d } else { &default_d });
+    let mut out = vec!["5".to_string()];
+    render_part(&mut out, env.render_str(&src, ()));
+    let r2 = match env.add_template_owned("c10-probe", src.clone()) {
+        Ok(()) => env.get_template("c10-probe").and_then(|t| t.render(())),
+        Err(e) => Err(e),
+    };
+    render_part(&mut out, r2);
+    out
+}
+
 fn main() {
     // one environment for the whole run (every setting is overwritten per case); built syntax
     // configurations are cached per delimiter set (modes 0 and 1)
@@ -250,6 +331,9 @@ fn main() {
             return history(c, bits);
         }
         let d: Vec<String> = (0..8).map(|_| c.str()).collect();
+        if mode == 3 {
+            return setter_order(c, &d);
+        }
         let src = if mode == 1 { c.str() } else { build_source(c, &d) };
         let built = cache.entry(d.clone()).or_insert_with(|| build_syntax(&d));
         let syntax = match built {
